@@ -1,6 +1,7 @@
 package checks
 
 import (
+	"bytes"
 	"bufio"
 	"encoding/json"
 	"encoding/xml"
@@ -84,7 +85,7 @@ func newCrashWorld(c *core.Ctx, k pkConfig, op crashOp) (*crashWorld, error) {
 		return nil, fmt.Errorf("create bucket: %v", r)
 	}
 	hdr := func(wid string, tag bool) []s3c.KV {
-		h := []s3c.KV{{K: "X-Amz-Meta-Wid", V: wid}}
+		h := []s3c.KV{{K: "X-Amz-Meta-Wid", V: wid}, {K: "X-Amz-Meta-Only-" + wid, V: "1"}}
 		if tag {
 			h = append(h, s3c.KV{K: "X-Amz-Tagging", V: "wid=" + wid})
 		}
@@ -160,7 +161,7 @@ func (w *crashWorld) run(op crashOp, cl *s3c.Client, label string) *s3c.Resp {
 	case op.family == "del":
 		return cl.Do(s3c.Req{Method: "DELETE", Path: path, Label: label, Timeout: 8 * time.Second})
 	default:
-		h := []s3c.KV{{K: "X-Amz-Meta-Wid", V: "w1"}}
+		h := []s3c.KV{{K: "X-Amz-Meta-Wid", V: "w1"}, {K: "X-Amz-Meta-Only-w1", V: "1"}}
 		if op.tagged {
 			h = append(h, s3c.KV{K: "X-Amz-Tagging", V: "wid=w1"})
 		}
@@ -600,6 +601,47 @@ func (w0 *crashWorld) killCase(c *core.Ctx, k pkConfig, op crashOp, hits []hookH
 	f.Inv, f.Ret = 3, 4
 	line.H = []linOp{o, f}
 
+	// a completion that did not take effect leaves the upload as it was acknowledged: its
+	// part is still listed with the ETag and size that were acknowledged, and the
+	// unanswered completion can be sent again
+	if op.family == "complete" && !op.versioned && !acked && f.Body != "w1" && cc.Hit != -1 {
+		what := ""
+		lp := cl2.Do(s3c.Req{Method: "GET", Path: "/" + w.bucket + "/" + w.key, Query: []s3c.KV{{K: "uploadId", V: w.uid}}})
+		if !lp.OK() {
+			what = fmt.Sprintf("ListParts of the upload answers %v", lp)
+		} else {
+			var pr partsResult
+			xml.Unmarshal(lp.Body, &pr)
+			found := false
+			for _, p := range pr.Parts {
+				if p.PartNumber == 1 {
+					found = true
+					if strings.Trim(p.ETag, "\"") != s3c.MD5Hex(pkContent("w1")) || p.Size != len(pkContent("w1")) {
+						what = fmt.Sprintf("part 1 is listed with ETag %s and size %d, acknowledged were %s and %d", p.ETag, p.Size, s3c.MD5Hex(pkContent("w1")), len(pkContent("w1")))
+					}
+				}
+			}
+			if !found {
+				what = "the acknowledged part 1 is not listed any more"
+			}
+		}
+		if what == "" {
+			if r := w.run(op, cl2, ""); !r.OK() || bytes.Contains(r.Body, []byte("<Error>")) {
+				what = fmt.Sprintf("the completion sent again answers %v", r)
+			} else {
+				pw := &pkWorld{c: c, bucket: w.bucket, key: w.key, etagOf: w.etagOf, sizeOf: w.sizeOf, cls: []*s3c.Client{cl2}}
+				if g := pw.observeGet(GetObject(cl2, w.bucket, w.key)); g.Res != "ok" || g.Body != "w1" || !g.Full {
+					b, _ := json.Marshal(g)
+					what = "after the completion was sent again GET returns " + string(b)
+				}
+			}
+		}
+		if what != "" {
+			c.Violation(core.FP("C11", "acked-upload-damaged", "complete", cc.Window, k.Meta),
+				fmt.Sprintf("%s (%s) killed at %s, the key is in its previous state: %s", op.name, k, cc.Site, what), line)
+		}
+	}
+
 	// TempInvisible: listings show only the expected names
 	lr, lresp := ListV2(cl2, w.bucket)
 	if !lresp.OK() {
@@ -630,7 +672,7 @@ func (w0 *crashWorld) killCase(c *core.Ctx, k pkConfig, op crashOp, hits []hookH
 		c.Violation(core.FP("C11", "temp-harmful", what, strings.SplitN(op.name, "-", 2)[0], cc.Window, k.Meta),
 			fmt.Sprintf("%s (%s) killed at %s: later %s answers %v", op.name, k, cc.Site, what, r), line)
 	}
-	if r := PutObject(cl2, w.bucket, w.key, pkContent("w2"), s3c.KV{K: "X-Amz-Meta-Wid", V: "w2"}); !r.OK() {
+	if r := PutObject(cl2, w.bucket, w.key, pkContent("w2"), s3c.KV{K: "X-Amz-Meta-Wid", V: "w2"}, s3c.KV{K: "X-Amz-Meta-Only-w2", V: "1"}); !r.OK() {
 		harm("put", r)
 	} else {
 		pw := &pkWorld{c: c, bucket: w.bucket, key: w.key, etagOf: w.etagOf, sizeOf: w.sizeOf, cls: []*s3c.Client{cl2}}
